@@ -140,7 +140,7 @@ func runC15(r *Run) {
 	nhist := 700
 	maxLen := 7
 	if r.Thorough() {
-		nhist = 6000
+		nhist = 30000
 		maxLen = 10
 	}
 	rr := r.Rng
@@ -220,7 +220,8 @@ func runC15(r *Run) {
 				seenT[o.f][o.t] = true
 				mt := time.Time{}
 				if o.t != 0 {
-					mt = time.Unix(int64(100000+o.t), 0)
+					// distinct model times are distinct instants 300 ms apart: several of them fall into the same second
+					mt = time.Unix(100000, 0).Add(time.Duration(o.t) * 300 * time.Millisecond)
 				}
 				cfs.m[c15Files[o.f]] = &fstest.MapFile{Data: []byte(c15Content(o.f, o.cid, o.valid, layoutScenario)), ModTime: mt}
 				editsSinceRender = true
